@@ -1,7 +1,7 @@
 #!/usr/bin/env python3
 """Runs every stored seed against its property's check(s) and writes seeded/<id>/meta.json and seeded/STATUS.md."""
 import json, os, re, subprocess, sys, glob
-V = '/verif'
+V = os.path.dirname(os.path.dirname(os.path.abspath(__file__)))
 # which checks are expected to see each seed (first = the seeded property)
 extra = {"C03-1": ["C03", "C09"], "C14-1": ["C14", "C19"], "C09-1": ["C09", "C03"], "C02-3": ["C02", "C19"], "C03-3": ["C03", "C14"],
          "C15-2": ["C15", "C18"]}
